@@ -152,8 +152,14 @@ func (r *ref) forward(a, b *types.LightBlock, now time.Time) string {
 		if !bytes.Equal(b.ValidatorsHash, a.NextValidatorsHash) {
 			return "adjacent but validators hash is not the trusted next-validators hash"
 		}
-	} else if !r.trustOK(a.ValidatorSet, b) {
-		return "less than the trust level of the trusted set signed"
+	} else {
+		// "the previous trusted set" is the set the trusted HEADER names, not whatever came along with it
+		if a.ValidatorSet == nil || !bytes.Equal(a.ValidatorSet.Hash(), a.ValidatorsHash) {
+			return "the validator set held for the trusted header is not the one the header names"
+		}
+		if !r.trustOK(a.ValidatorSet, b) {
+			return "less than the trust level of the trusted set signed"
+		}
 	}
 	if err := r.ownQuorum(b); err != nil {
 		return "own set: " + err.Error()
